@@ -193,10 +193,20 @@ def run_history(rep, dpath, tier):
     names = list(hist_ops(type("D", (), {"generic_message": None, "get_module_info": None, "get_plc_name": None, "get_plc_info": None, "get_plc_time": None, "set_plc_time": None})()))
     depth = 2 if tier == "quick" else 3
     alone = {n: hist_observe((n,), dpath) for n in names}
+    # what the driver's own route is, from the reference grammar: LogixDriver adds backplane slot 0 to a bare address
+    segs = dpath.split("/")[1:]
+    droute = tuple(({"bp": 1, "backplane": 1, "enet": 2, "cnet": 2}.get(p, p) if not str(p).isdigit() else int(p), (bytes([int(l)]) if l.isdigit() else l.encode())) for p, l in zip(segs[::2], segs[1::2])) or ((1, b"\x00"),)
+    expected_route = {"gm-ucsend-true": droute, "gm-ucsend-str": ((1, b"\x05"),), "plc-info": droute,
+                      "module-info-0": droute[:-1] + ((1, b"\x00"),), "module-info-3": droute[:-1] + ((1, b"\x03"),), "module-info-16": droute[:-1] + ((1, b"\x10"),)}
     for n, (o, obs) in alone.items():
-        rep.case(("history", dpath, n), outcome="ok" if o == ("ok", True) and not obs[3] else "bad")
-        if o != ("ok", True) or obs[3]:
-            rep.violation("history/alone", f"{n} on {dpath!r}: open {o!r:.60}, target flagged {obs[3]!r:.160}", {"case": ("history", dpath, (n,))})
+        wrong = None
+        if n in expected_route:
+            routes = [r[4] for r in obs[0] if r[0] == "ucsend"]
+            if routes != [expected_route[n]]:
+                wrong = f"Unconnected Send route(s) {routes!r}, expected {expected_route[n]!r}"
+        rep.case(("history", dpath, n), outcome="ok" if o == ("ok", True) and not obs[3] and not wrong else "bad")
+        if o != ("ok", True) or obs[3] or wrong:
+            rep.violation("history/alone", f"{n} on {dpath!r}: open {o!r:.60}, target flagged {obs[3]!r:.160}" + (f"; {wrong}" if wrong else ""), {"case": ("history", dpath, (n,))})
     for k in range(2, depth + 1):
         for hist in itertools.product(names, repeat=k):
             o, obs = hist_observe(hist, dpath)
@@ -212,7 +222,8 @@ def run_history(rep, dpath, tier):
 
 
 def shards(tier, seed):
-    return [("services",), ("ids", 0), ("ids", 1), ("ids", 2), ("datalen",), ("replies",), ("routes",), ("helpers",), ("status",)] + [("history", i) for i in range(len(HIST_PATHS))]
+    return [("services",), ("ids", 0), ("ids", 1), ("ids", 2), ("datalen",), ("replies",), ("routes",), ("helpers",), ("status",)] + [("history", i) for i in range(len(HIST_PATHS))] \
+        + [("helpers", "debuglog"), ("status", "debuglog"), ("history", 0, "debuglog"), ("routes", "debuglog")]
 
 
 def describe(tier, seed):
